@@ -1,0 +1,144 @@
+//go:build verif
+
+package eval
+
+import (
+	"encoding/hex"
+	"fmt"
+	"io"
+	"reflect"
+	"strconv"
+	"strings"
+
+	"src.elv.sh/pkg/eval/errs"
+)
+
+// Pipeline-protocol events for the verification harness (build tag verif).
+// Each event becomes one entry "c18 label,arg,arg..." of the verifTrace log;
+// arguments never contain spaces or commas. Pointers and channels are logged
+// by address so that the harness can tell ports and stages apart.
+
+// VerifC18Yield, when set, is called after each event is logged. The harness
+// uses it to perturb the schedule.
+var VerifC18Yield func(label string)
+
+// VerifTraceC18 lets harness-side builtins log into the same event log.
+func VerifTraceC18(label string, args ...any) { verifTraceC18(label, args...) }
+
+func verifTraceC18(label string, args ...any) {
+	var sb strings.Builder
+	sb.WriteString(label)
+	for _, a := range args {
+		sb.WriteByte(',')
+		sb.WriteString(verifC18Fmt(label, a))
+	}
+	// the whole event travels in the label, so that it does not depend on how
+	// the shared log renders arguments
+	verifTrace("c18 " + sb.String())
+	if y := VerifC18Yield; y != nil {
+		y(label)
+	}
+}
+
+// VerifC18Bytes encodes a byte string run-length encoded: hh*count.hh*count
+func VerifC18Bytes(s string) string {
+	if s == "" {
+		return "b"
+	}
+	var sb strings.Builder
+	sb.WriteByte('b')
+	for i := 0; i < len(s); {
+		j := i
+		for j < len(s) && s[j] == s[i] {
+			j++
+		}
+		if i > 0 {
+			sb.WriteByte('.')
+		}
+		fmt.Fprintf(&sb, "%02x*%d", s[i], j-i)
+		i = j
+	}
+	return sb.String()
+}
+
+// VerifC18Exc encodes an error/exception: - nil, g reader gone, n no value
+// output, k exception with nil reason, eN fail eN, P[..] pipeline error, u other.
+func VerifC18Exc(err error) string {
+	if err == nil {
+		return "-"
+	}
+	var reason error = err
+	if exc, ok := err.(Exception); ok {
+		if exc == nil || reflect.ValueOf(exc).IsNil() {
+			return "-"
+		}
+		reason = exc.Reason()
+		if reason == nil {
+			return "k"
+		}
+	}
+	switch r := reason.(type) {
+	case errs.ReaderGone:
+		return "g"
+	case FailError:
+		if s, ok := r.Content.(string); ok && len(s) > 1 && s[0] == 'e' {
+			if _, err := strconv.Atoi(s[1:]); err == nil {
+				return s
+			}
+		}
+		return "u"
+	case PipelineError:
+		parts := make([]string, len(r.Errors))
+		for i, e := range r.Errors {
+			parts[i] = VerifC18Exc(e)
+		}
+		return "P[" + strings.Join(parts, ";") + "]"
+	}
+	if reason == ErrPortDoesNotSupportValueOutput {
+		return "n"
+	}
+	return "u"
+}
+
+func verifC18Fmt(label string, a any) string {
+	switch a := a.(type) {
+	case nil:
+		return "-"
+	case int:
+		return "i" + strconv.Itoa(a)
+	case bool:
+		return strconv.FormatBool(a)
+	case string:
+		if strings.HasPrefix(label, "write") || strings.HasPrefix(label, "line") || strings.HasPrefix(label, "read") {
+			return VerifC18Bytes(a)
+		}
+		return "s" + hex.EncodeToString([]byte(a))
+	case []byte:
+		return VerifC18Bytes(string(a))
+	case []Exception:
+		parts := make([]string, len(a))
+		for i, e := range a {
+			if e == nil {
+				parts[i] = "-"
+			} else {
+				parts[i] = VerifC18Exc(e)
+			}
+		}
+		return "[" + strings.Join(parts, ";") + "]=" + VerifC18Exc(MakePipelineError(a))
+	case Exception:
+		return VerifC18Exc(a)
+	case error:
+		if a == io.EOF {
+			return "eof"
+		}
+		return VerifC18Exc(a)
+	}
+	v := reflect.ValueOf(a)
+	switch v.Kind() {
+	case reflect.Chan, reflect.Pointer, reflect.UnsafePointer:
+		return fmt.Sprintf("%p", a)
+	case reflect.Float64:
+		return "f" + strconv.FormatFloat(v.Float(), 'g', -1, 64)
+	}
+	return "o" + strings.ReplaceAll(fmt.Sprintf("%T", a), " ", "")
+}
